@@ -206,6 +206,13 @@ def oracle(ctx):
                    {b'src/many.container': unit + b'Label=k=v\n' * (N // 10)},
                    {b'src/many.container': unit + b'[Container]\n' * (N // 10)},
                    {b'src/many.container': unit + b'Exec=a ' + b'\\\n#c\n' * (N // 10) + b'b\n'}]
+    # not everything in a directory is a regular file: a FIFO, a link to a device that never ends (/dev/zero) or never answers, a socket-like
+    # special file — named like a unit or like a drop-in — is reported for itself; the run ends and the units beside it are generated (D22)
+    long_trees += [{b'src/f.container': ('fifo',), b'src/ok.volume': b'[Volume]\n'},
+                   {b'src/z.kube': ('link', b'/dev/zero'), b'src/ok.volume': b'[Volume]\n'},
+                   {b'src/ok.volume': b'[Volume]\n', b'src/ok.volume.d/10.conf': ('fifo',), b'src/fine.network': b'[Network]\n'},
+                   {b'src/ok.volume': b'[Volume]\n', b'src/ok.volume.d/10.conf': ('link', b'/dev/zero'), b'src/fine.network': b'[Network]\n'},
+                   {b'src/sub/deep/p.pod': ('fifo',), b'src/n.network': ('link', b'/dev/full'), b'src/ok.volume': b'[Volume]\n'}]
     n_adv = len(trees_)
     trees_ += long_trees
 
@@ -217,7 +224,10 @@ def oracle(ctx):
             try:
                 os.makedirs(os.path.dirname(p), exist_ok=True)
                 if isinstance(content, tuple):
-                    os.symlink(content[1], p)
+                    if content[0] == 'fifo':
+                        os.mkfifo(p)
+                    else:
+                        os.symlink(content[1], p)
                     continue
                 with open(p, 'wb') as f:
                     f.write(content)
